@@ -549,6 +549,9 @@ class Interp:
 
     # -- operators ----------------------------------------------------------
     def eq(s, a, b):
+        if isinstance(a, (tuple, list)) and type(a) is type(b):
+            # element-wise, so that interpreted __eq__ of abstract elements is used
+            return len(a) == len(b) and all(s.truth(s.eq(x, y)) for x, y in zip(a, b))
         if isinstance(a, AInst):
             f = s.find_method(a.cls, '__eq__')
             if f is not None:
